@@ -3,6 +3,14 @@ From Coq Require Import Lia.
 From IV Require Import Base.Bytes Model.Lifecycle.
 Local Open Scope nat_scope.
 
+(** * A session's step does not depend on the shutdown flags *)
+
+(** Whatever the context and the listener are doing, a session in a given state reacts to a given
+    action in the same way. (Proved, not assumed: the flags ARE inputs of [sess_step].) *)
+Theorem session_step_ignores_shutdown :
+  forall pz c1 l1 c2 l2 s a, sess_step pz c1 l1 s a = sess_step pz c2 l2 s a.
+Proof. intros pz c1 l1 c2 l2 s a. destruct a; reflexivity. Qed.
+
 (** * The WaitGroup counter counts the sessions that are alive *)
 
 (** What one session contributes to [Server.wg]: 1 from the accept loop until its goroutine's
@@ -46,8 +54,8 @@ Lemma running_weight pz p : running p = true -> weight pz p = 1 + inner pz.
 Proof. destruct p; cbn; intros E; try discriminate; reflexivity. Qed.
 
 (** The session's own step changes the counter by exactly the change of its weight. *)
-Lemma sess_step_weight pz s a s' inc dec :
-  sess_step pz s a = Some (s', inc, dec) ->
+Lemma sess_step_weight pz c0 l0 s a s' inc dec :
+  sess_step pz c0 l0 s a = Some (s', inc, dec) ->
   weight pz (ph s) + inc = weight pz (ph s') + dec /\ dec <= weight pz (ph s) + inc.
 Proof.
   destruct a; cbn [sess_step]; try discriminate.
@@ -70,17 +78,17 @@ Proof.
             match find_s i (ss (sv y)) with
             | None => None
             | Some s =>
-                match sess_step (pr (sv y)) s a with
+                match sess_step (pr (sv y)) (cancelled y) (lopen (sv y)) s a with
                 | None => None
                 | Some (s', inc, dec) =>
                     Some (mkSys (cancelled y) (mkSrv (pr (sv y)) (lopen (sv y)) (wg (sv y) + inc - dec) (upd_s i s' (ss (sv y)))))
                 end
             end = Some y' -> wg (sv y') = total (pr (sv y')) (ss (sv y'))).
   { intros i _ E1. destruct (find_s i (ss (sv y))) as [s|] eqn:F; [|discriminate].
-    destruct (sess_step (pr (sv y)) s a) as [[[s' inc] dec]|] eqn:SS; [|discriminate].
+    destruct (sess_step (pr (sv y)) (cancelled y) (lopen (sv y)) s a) as [[[s' inc] dec]|] eqn:SS; [|discriminate].
     inversion E1; subst y'; clear E1. cbn [sv wg pr ss].
     pose proof (total_upd (pr (sv y)) i s s' _ F). pose proof (total_ge (pr (sv y)) i s _ F).
-    destruct (sess_step_weight _ _ _ _ _ _ SS). lia. }
+    destruct (sess_step_weight _ _ _ _ _ _ _ _ SS). lia. }
   destruct a; cbn [step] in E; try (eapply Sess; [reflexivity|exact E]).
   - destruct (lopen (sv y)); [|discriminate]. destruct (find_s i (ss (sv y))); [discriminate|].
     inversion E; subst y'. cbn [sv wg pr ss]. rewrite total_app. cbn. lia.
@@ -131,14 +139,14 @@ Proof.
                 match find_s i (ss (sv y)) with
                 | None => None
                 | Some s =>
-                    match sess_step (pr (sv y)) s a with
+                    match sess_step (pr (sv y)) (cancelled y) (lopen (sv y)) s a with
                     | None => None
                     | Some (s', inc, dec) =>
                         Some (mkSys (cancelled y) (mkSrv (pr (sv y)) (lopen (sv y)) (wg (sv y) + inc - dec) (upd_s i s' (ss (sv y)))))
                     end
                 end = Some y1 -> lopen (sv y1) = false /\ map fst (ss (sv y1)) = map fst (ss (sv y))).
       { intros i _ E1. destruct (find_s i (ss (sv y))) as [s|]; [|discriminate].
-        destruct (sess_step (pr (sv y)) s a) as [[[s' inc] dec]|]; [|discriminate].
+        destruct (sess_step (pr (sv y)) (cancelled y) (lopen (sv y)) s a) as [[[s' inc] dec]|]; [|discriminate].
         inversion E1; subst y1. cbn [sv lopen ss]. split; auto.
         generalize (ss (sv y)). induction l as [|[k x] l IHl]; cbn [upd_s map fst]; auto.
         destruct (Nat.eqb k i); cbn [map fst]; [reflexivity|]. rewrite IHl. reflexivity. }
@@ -188,22 +196,28 @@ Proof.
       destruct (find_s i (ss (sv y2))); [discriminate|]. inversion E; subst y3; clear E.
       eapply IH; [|exact R]. cbn. rewrite S2, S3. repeat split; auto.
     + rewrite S1, S3. destruct (find_s i (ss (sv y2))) as [s|]; [|discriminate].
-      destruct (sess_step (pr (sv y2)) s (Begin i)) as [[[s' inc] dec]|]; [|discriminate].
+      rewrite (session_step_ignores_shutdown (pr (sv y2)) (cancelled y1) (lopen (sv y1)) (cancelled y2) (lopen (sv y2))).
+      destruct (sess_step (pr (sv y2)) (cancelled y2) (lopen (sv y2)) s (Begin i)) as [[[s' inc] dec]|]; [|discriminate].
       inversion E; subst y3; clear E. eapply IH; [|exact R]. cbn. rewrite S2. repeat split; auto.
     + rewrite S1, S3. destruct (find_s i (ss (sv y2))) as [s|]; [|discriminate].
-      destruct (sess_step (pr (sv y2)) s (Client i to)) as [[[s' inc] dec]|]; [|discriminate].
+      rewrite (session_step_ignores_shutdown (pr (sv y2)) (cancelled y1) (lopen (sv y1)) (cancelled y2) (lopen (sv y2))).
+      destruct (sess_step (pr (sv y2)) (cancelled y2) (lopen (sv y2)) s (Client i to)) as [[[s' inc] dec]|]; [|discriminate].
       inversion E; subst y3; clear E. eapply IH; [|exact R]. cbn. rewrite S2. repeat split; auto.
     + rewrite S1, S3. destruct (find_s i (ss (sv y2))) as [s|]; [|discriminate].
-      destruct (sess_step (pr (sv y2)) s (Quit i)) as [[[s' inc] dec]|]; [|discriminate].
+      rewrite (session_step_ignores_shutdown (pr (sv y2)) (cancelled y1) (lopen (sv y1)) (cancelled y2) (lopen (sv y2))).
+      destruct (sess_step (pr (sv y2)) (cancelled y2) (lopen (sv y2)) s (Quit i)) as [[[s' inc] dec]|]; [|discriminate].
       inversion E; subst y3; clear E. eapply IH; [|exact R]. cbn. rewrite S2. repeat split; auto.
     + rewrite S1, S3. destruct (find_s i (ss (sv y2))) as [s|]; [|discriminate].
-      destruct (sess_step (pr (sv y2)) s (Purge i)) as [[[s' inc] dec]|]; [|discriminate].
+      rewrite (session_step_ignores_shutdown (pr (sv y2)) (cancelled y1) (lopen (sv y1)) (cancelled y2) (lopen (sv y2))).
+      destruct (sess_step (pr (sv y2)) (cancelled y2) (lopen (sv y2)) s (Purge i)) as [[[s' inc] dec]|]; [|discriminate].
       inversion E; subst y3; clear E. eapply IH; [|exact R]. cbn. rewrite S2. repeat split; auto.
     + rewrite S1, S3. destruct (find_s i (ss (sv y2))) as [s|]; [|discriminate].
-      destruct (sess_step (pr (sv y2)) s (Abort i)) as [[[s' inc] dec]|]; [|discriminate].
+      rewrite (session_step_ignores_shutdown (pr (sv y2)) (cancelled y1) (lopen (sv y1)) (cancelled y2) (lopen (sv y2))).
+      destruct (sess_step (pr (sv y2)) (cancelled y2) (lopen (sv y2)) s (Abort i)) as [[[s' inc] dec]|]; [|discriminate].
       inversion E; subst y3; clear E. eapply IH; [|exact R]. cbn. rewrite S2. repeat split; auto.
     + rewrite S1, S3. destruct (find_s i (ss (sv y2))) as [s|]; [|discriminate].
-      destruct (sess_step (pr (sv y2)) s (Exit i)) as [[[s' inc] dec]|]; [|discriminate].
+      rewrite (session_step_ignores_shutdown (pr (sv y2)) (cancelled y1) (lopen (sv y1)) (cancelled y2) (lopen (sv y2))).
+      destruct (sess_step (pr (sv y2)) (cancelled y2) (lopen (sv y2)) s (Exit i)) as [[[s' inc] dec]|]; [|discriminate].
       inversion E; subst y3; clear E. eapply IH; [|exact R]. cbn. rewrite S2. repeat split; auto.
     + (* Cancel *) cbn [step] in E. inversion E; subst y3. eapply IH; [|exact R]. cbn. repeat split; auto.
     + (* LClose *) cbn [step] in E. destruct (cancelled y2 && lopen (sv y2)); [|discriminate].
@@ -264,7 +278,7 @@ Definition purged (s : session) : Prop :=
   | _ => committed s = false
   end.
 
-Lemma purged_sess_step pz s a s' inc dec : purged s -> sess_step pz s a = Some (s', inc, dec) -> purged s'.
+Lemma purged_sess_step pz c0 l0 s a s' inc dec : purged s -> sess_step pz c0 l0 s a = Some (s', inc, dec) -> purged s'.
 Proof.
   unfold purged. destruct a; cbn [sess_step]; try discriminate.
   - destruct (ph s) eqn:P; try discriminate. intros H E. inversion E; subst. cbn. exact H.
@@ -305,14 +319,14 @@ Proof.
             match find_s i (ss (sv y)) with
             | None => None
             | Some s =>
-                match sess_step (pr (sv y)) s a with
+                match sess_step (pr (sv y)) (cancelled y) (lopen (sv y)) s a with
                 | None => None
                 | Some (s', inc, dec) =>
                     Some (mkSys (cancelled y) (mkSrv (pr (sv y)) (lopen (sv y)) (wg (sv y) + inc - dec) (upd_s i s' (ss (sv y)))))
                 end
             end = Some y' -> forall j x, In (j, x) (ss (sv y')) -> purged x).
   { intros i _ E1. destruct (find_s i (ss (sv y))) as [s|] eqn:F; [|discriminate].
-    destruct (sess_step (pr (sv y)) s a) as [[[s' inc] dec]|] eqn:SS; [|discriminate].
+    destruct (sess_step (pr (sv y)) (cancelled y) (lopen (sv y)) s a) as [[[s' inc] dec]|] eqn:SS; [|discriminate].
     inversion E1; subst y'; clear E1. cbn [sv ss]. intros j x H.
     destruct (in_upd_s _ _ _ _ _ H) as [H1| ->]; [eauto|].
     eapply purged_sess_step; [|exact SS]. eapply C. eapply find_s_in; eauto. }
